@@ -171,6 +171,9 @@ class _Observer:
     def flush(self):
         pass
 
+    def flush(self):
+        pass
+
 
 class _Daemon:
     def __init__(self, requests):
@@ -242,6 +245,40 @@ def enum_streams(seed):
             # the stub file cannot be created (its name is taken by a directory): a failure of the underlying file operation, to be reported
             ("keepdir whose stub name is taken", lambda nf: _req("keepdir", ["/var/obst"], work, nf), lambda ED: os.path.isfile(os.path.join(ED, "var/obst/.keep_cat_pkg-0")), False),
         ]
+        # eapply: patches from a directory are applied in order, each one's exit status counts.  Every request patches a file of its own, put back
+        # into its first state when the request is built
+        ORIG = "line1\nline2\nline3\n"
+
+        def diff(name, old_, new_, ctx_old="line2", ctx_new="line2"):
+            return f"--- a/{name}\n+++ b/{name}\n@@ -1,3 +1,3 @@\n" + "".join(
+                (f" {o}\n" if o == n else f"-{o}\n+{n}\n") for o, n in zip(old_, new_))
+        def mkpatches(dirname, files):
+            os.makedirs(os.path.join(work, dirname))
+            for fn, text in files.items():
+                open(os.path.join(work, dirname, fn), "w").write(text)
+        L = ["line1", "line2", "line3"]
+        mkpatches("p_ok", {"01-first.patch": diff("t_ok.txt", L, ["LINE1", "line2", "line3"]), "02-second.patch": diff("t_ok.txt", ["LINE1", "line2", "line3"], ["LINE1", "line2", "LINE3"])})
+        mkpatches("p_first_bad", {"01-bad.patch": diff("t_fb.txt", ["no", "such", "context"], ["x", "such", "context"]), "02-good.patch": diff("t_fb.txt", L, ["line1", "line2", "LINE3"])})
+        mkpatches("p_last_bad", {"01-good.patch": diff("t_lb.txt", L, ["LINE1", "line2", "line3"]), "02-bad.patch": diff("t_lb.txt", ["no", "such", "context"], ["x", "such", "context"])})
+        mkpatches("p_single", {"only.patch": diff("t_s.txt", ["no", "such", "context"], ["x", "such", "context"])})
+
+        def eapply(target_file, args):
+            def build(nf):
+                open(os.path.join(work, target_file), "w").write(ORIG)
+                for junk in (target_file + ".rej", target_file + ".orig"):
+                    if os.path.exists(os.path.join(work, junk)):
+                        os.unlink(os.path.join(work, junk))
+                return _req("eapply", args, work, nf)
+            return build
+
+        def patched(target_file, want):
+            return lambda ED: open(os.path.join(work, target_file)).read() == want and not os.path.exists(os.path.join(work, target_file + ".rej"))
+        REQS += [
+            ("eapply directory of two patches", eapply("t_ok.txt", ["p_ok"]), patched("t_ok.txt", "LINE1\nline2\nLINE3\n"), True),
+            ("eapply directory whose first patch fails", eapply("t_fb.txt", ["p_first_bad"]), patched("t_fb.txt", "never: a patch of the set failed"), False),
+            ("eapply directory whose last patch fails", eapply("t_lb.txt", ["p_last_bad"]), patched("t_lb.txt", "never: a patch of the set failed"), False),
+            ("eapply one failing patch file", eapply("t_s.txt", ["p_single/only.patch"]), patched("t_s.txt", "never: the patch failed"), False),
+        ]
         label_idx = {r[0]: i for i, r in enumerate(REQS)}
         # sequences that are always run: a failure of each kind followed by a valid request of the same kind on the same helper object
         always = [tuple(label_idx[x] for x in seq) for seq in (
@@ -249,7 +286,8 @@ def enum_streams(seed):
             ("dosym onto a non-empty directory", "dosym", "doins -r directory"), ("dosym surplus argument", "dosym", "dodir"),
             ("doins failing external install", "doins with unknown install option (external install)", "doins file"),
             ("doexe directory and file via external install", "doexe two files via external install", "doins -r directory"),
-            ("keepdir whose stub name is taken", "keepdir", "dodir"))]
+            ("keepdir whose stub name is taken", "keepdir", "dodir"),
+            ("eapply directory whose first patch fails", "eapply directory of two patches", "dodir"), ("eapply directory whose last patch fails", "eapply one failing patch file", "eapply directory of two patches"))]
         for order in always + list(itertools.permutations(range(len(REQS)), 3)):
             if order not in always and (hash(order) + seed) % 11:
                 continue
@@ -258,7 +296,7 @@ def enum_streams(seed):
                 os.makedirs(os.path.join(ED, "usr/share/obst/sub/inner.txt/occupied"))   # the obstacle: a non-empty directory where a file / link has to go
                 os.makedirs(os.path.join(ED, "var/obst/.keep_cat_pkg-0/occupied"))
                 op = types.SimpleNamespace(pkg=FakePkg("cat/pkg-1", eapi="8"), ED=ED, observer=_Observer(), env={"T": ED}, userpriv=False, domain=None)
-                helpers = {"dosym": I.Dosym(op), "doins": I.Doins(op), "dodir": I.Dodir(op), "doexe": I.Doexe(op), "keepdir": I.Keepdir(op)}
+                helpers = {"dosym": I.Dosym(op), "doins": I.Doins(op), "dodir": I.Dodir(op), "doexe": I.Doexe(op), "keepdir": I.Keepdir(op), "eapply": I.Eapply(op)}
                 stream = [REQS[i] for i in order]
                 d = _Daemon([r[1](nonfatal) for r in stream])
                 E.request_ebuild_processor = lambda **kw: d
